@@ -31,6 +31,8 @@ def classify(scn, line):
             out.discard(e["i"])
     e = scn[line - 1]
     full = out == set(range(mn, mx + 1))
+    if e.get("hang"):
+        return e["op"] + "-never-returns" + ("-when-exhausted" if full else "")
     if e["op"] == "get":
         if e.get("panic"):
             return "get-panic"
